@@ -10,7 +10,9 @@ Local Open Scope N_scope.
 Local Open Scope outcome_scope.
 
 (* bytes [off, off+len) of the image; short if the image ends earlier *)
-Definition sub (off len : N) (img : bytes) : bytes := firstn (N.to_nat len) (skipn (N.to_nat off) img).
+Definition sub (off len : N) (img : bytes) : bytes :=
+  if blen img <=? off then []     (* also keeps a huge offset from ever becoming a huge nat *)
+  else firstn (N.to_nat (N.min len (blen img - off))) (skipn (N.to_nat off) img).
 Definition u16 (off : N) (img : bytes) : N := unle (sub off 2 img).
 Definition u32 (off : N) (img : bytes) : N := unle (sub off 4 img).
 
